@@ -4,6 +4,11 @@ import json, os, shutil, subprocess, sys, tempfile, time, glob
 VERIF = os.path.dirname(os.path.dirname(os.path.abspath(__file__)))
 REPO = os.environ.get("VERIF_REPO") or "/repo"
 BUILD = os.path.join(VERIF, ".build")
+if (os.environ.get("VERIF_REPO") or "/repo") != "/repo":
+    # a scratch copy is being checked (seeded change): its binaries must not replace the ones built from /repo
+    import atexit
+    BUILD = tempfile.mkdtemp(prefix="verif-build-")
+    atexit.register(lambda: shutil.rmtree(BUILD, ignore_errors=True))
 HARNESS = os.path.join(VERIF, "harness")
 NPROC = int(os.environ.get("VERIF_WORKERS", "16"))
 
